@@ -149,7 +149,6 @@ func vkSigSection(r *vkRun, thorough bool) {
 			}
 		}
 	}
-	r.c.Add("sig_bases", 0)
 	r.c.Note(fmt.Sprintf("signature section: %d keys, %d RRsets, %d (key,RRset) bases, %d structural + %d EM mutations per base, every bit flip and truncation of each signature", len(keys), len(vkRRsets), bases, len(structural), len(em)))
 }
 
@@ -197,6 +196,56 @@ func vkDispatchSection(r *vkRun) {
 	}
 }
 
+// vkUnicodeFoldSection: names are compared octet-wise with ASCII case folding
+// only (RFC 4343). Owner / signer names that differ from the RRSIG's or the
+// key's by a non-ASCII rune whose Unicode simple fold is an ASCII letter
+// (U+212A KELVIN SIGN -> k, U+017F LONG S -> s) are DIFFERENT names.
+func vkUnicodeFoldSection(r *vkRun) {
+	key := vkEdKey(0, dns.ED25519, 257, 3)
+	type uc struct {
+		id    string
+		apply func(b *vkBase) (*dns.DNSKEY, *dns.RRSIG, []dns.RR)
+	}
+	sign := func(k *vkKey, owner, signer, sigOwner string, keyOwner string) (*dns.DNSKEY, *dns.RRSIG, []dns.RR) {
+		kk := *k
+		kk.Key = k.clone()
+		kk.Key.Hdr.Name = signer
+		spec := &vkRRsetSpec{Name: "x", Signed: []string{"placeholder.example.org. 300 IN A 192.0.2.1"}}
+		signed := vkParse(spec.Signed)
+		signed[0].Header().Name = owner
+		tag, _ := vkLibKeyTag(kk.Key)
+		sig := &dns.RRSIG{Hdr: dns.RR_Header{Rrtype: dns.TypeRRSIG, Class: dns.ClassINET, Ttl: 300}, Algorithm: kk.Key.Algorithm,
+			Expiration: 1<<32 - 1, OrigTtl: 300, KeyTag: tag, SignerName: signer}
+		sg := *k.Signer
+		if err := sig.Sign(&sg, signed); err != nil {
+			panic(err)
+		}
+		sig.Hdr.Name = sigOwner
+		out := kk.clone()
+		out.Hdr.Name = keyOwner
+		return out, sig, signed
+	}
+	cases := []uc{
+		{"control-ascii-case", func(b *vkBase) (*dns.DNSKEY, *dns.RRSIG, []dns.RR) {
+			return sign(key, "K.example.org.", "example.org.", "k.example.org.", "Example.ORG.")
+		}},
+		{"rrsig-owner-kelvin", func(b *vkBase) (*dns.DNSKEY, *dns.RRSIG, []dns.RR) {
+			return sign(key, "\u212a.example.org.", "example.org.", "k.example.org.", "example.org.")
+		}},
+		{"key-owner-kelvin", func(b *vkBase) (*dns.DNSKEY, *dns.RRSIG, []dns.RR) {
+			return sign(key, "a.key.org.", "key.org.", "a.key.org.", "\u212aey.org.")
+		}},
+	}
+	for _, u := range cases {
+		caseKey := "sig|unicode-fold|" + u.id
+		if !r.take(caseKey) {
+			continue
+		}
+		b := &vkBase{key: key, spec: &vkRRsetSpec{Name: "unicode-fold"}, ready: true}
+		vkSigCase(r, caseKey, b, vkMut{Name: u.id, Near: true, Apply: u.apply})
+	}
+}
+
 func TestVerifC14(t *testing.T) {
 	c := vkit.Init("C14/diff")
 	defer c.Close()
@@ -227,6 +276,7 @@ func TestVerifC14(t *testing.T) {
 		{"keytag|", func() { vkKeyTagSection(r, thorough) }},
 		{"ds|", func() { vkDSSection(r, thorough) }},
 		{"sig|", func() { vkSigSection(r, thorough) }},
+		{"sig|unicode-fold|", func() { vkUnicodeFoldSection(r) }},
 		{"dispatch|", func() { vkDispatchSection(r) }},
 		{"verify", func() { vkMsgSection(r, thorough) }},
 		{"work|", func() { vkWorkSection(r) }},
